@@ -22,8 +22,6 @@ help(const char* cmd_name) {
               << "   Inverse HeadMatrix " << std::endl
               << "   Filepaths are in order :" << std::endl
               << "       HeadMat (bin), HeadMatInv (bin)" << std::endl << std::endl;
-
-    exit(0);
 }
 
 int
